@@ -574,7 +574,9 @@ def replay(data):
     if bad:
         key = ("C13:ins:" + ("checkpoint-modified" if "modified" in bad[0] else "exit-code" if "exited" in bad[0] else "resume-failed")
                if t["sampler"] == "ins" else failure_key(o, d, translate(_Dummy()).get("stmts") or {}))
-    known = [k["key"] for k in common.load_known() if k.get("property") == PID and k.get("status", "open") == "open"]
+    import re
+    known = [key for k in common.load_known() if k.get("property") == PID and k.get("status", "open") == "open"
+             and key is not None and (key == k["key"] or (k.get("key_regex") and re.fullmatch(k["key_regex"], key)))]
     print(json.dumps({"task": t, "exit": o.get("exit"), "delta(st,de,it,ai,live changed,new present)": d,
                       "observed_key": key, "observed_key_is_a_known_finding": key in known,
                       "recorded_key": data.get("key"),
